@@ -12,8 +12,8 @@
    three real servers (known_findings.json F06, F07a, F07b, F17).  What is proved is the statement for
    every history that avoids those shapes (`shapes_ok`, decided on the state the history reaches). *)
 From Coq Require Import ZArith List Bool.
-From Verif Require Import Lib.Sx Model.FsBase Model.MemFS Model.PosixFS Model.BackendSrv
-                          Proofs.FsFacts Proofs.Backends Gen.PathIOTable.
+From Verif Require Import Lib.Sx Model.FsBase Model.MemFS Model.PosixFS Model.BackendSrv Model.FsAgreeDom
+                          Proofs.FsFacts Proofs.Backends Proofs.BackendsMatrix Gen.PathIOTable.
 Import ListNotations.
 Open Scope Z_scope.
 
@@ -148,6 +148,122 @@ Theorem C18_rnto_same_path_refuted :
     codes_of (srv_run p_run (None, t) [CRnfr a; CDele a; CRnto a]) = [[350]; [250]; [451]].
 Proof. exact rnto_same_path_refuted. Qed.
 Print Assumptions C18_rnto_same_path_refuted.
+
+(* all three backends in one statement: `a_run` is any backend whose every operation has PathIO's
+   outcome -- what C18_fs_backends_equal (below) establishes for AsyncPathIO's wrappers *)
+Theorem C18_three_backends_agree_partial : forall a_run : node -> fsop -> result * node,
+  (forall t o, a_run t o = p_run t o) ->
+  forall cs rf t, wf t -> shapes_ok (rf, t) cs = true ->
+    srv_run m_run (rf, t) cs = srv_run p_run (rf, t) cs
+    /\ srv_run a_run (rf, t) cs = srv_run p_run (rf, t) cs
+    /\ inert_from t (srv_run m_run (rf, t) cs)
+    /\ inert_from t (srv_run p_run (rf, t) cs)
+    /\ inert_from t (srv_run a_run (rf, t) cs).
+Proof. exact three_backends_agree_partial. Qed.
+Print Assumptions C18_three_backends_agree_partial.
+
+(* RETR sends the file block by block (iter_by_block(block_size): read(block_size) until b""); the model's
+   `retrieve` takes one read(-1).  For every file, restart offset and block size the blocks concatenate
+   to exactly the bytes from the offset on -- the payload of `retrieve`, on every backend *)
+Theorem C18_retr_blocks_payload : forall data restart bs,
+  0 < bs -> 0 <= restart ->
+  concat (read_blocks (S (length data)) data restart bs) = skipn (Z.to_nat restart) data.
+Proof. exact retr_blocks_payload. Qed.
+Print Assumptions C18_retr_blocks_payload.
+
+(* ---------------- API level: MemoryPathIO vs the file-system backends ---------------- *)
+(* Outside the letter of the property (which relates the three backends behind the server and the two
+   file-system backends at the API), but it is what makes the server-level statement robust: on the
+   decidable domain `api_ok` -- every query, mkdir with every parents/exist_ok, rmdir/unlink on every
+   path but the root, rename onto a missing destination outside the F07/F17 shapes, open in every mode
+   with every seek/read/write script inside the matrix `hop_cell_ok` / `ab_script_ok` -- MemFS and
+   PosixFS give the same result-or-failure (up to the class of the error, also per call of a handle
+   script) and the same tree after every operation of every sequence. *)
+Theorem C18_api_mem_posix_agree_partial : forall os t,
+  wf t -> api_oks t os = true ->
+  map blank_step (run_ops m_run t os) = map blank_step (run_ops p_run t os).
+Proof. exact api_seq_sim. Qed.
+Print Assumptions C18_api_mem_posix_agree_partial.
+
+(* the open-mode x seek/read/write matrix: every tree, path, mode and script inside it *)
+Theorem C18_open_matrix_agree : forall t p m s,
+  open_ok t p m s = true ->
+  blank_step (m_run t (Open p m s)) = blank_step (p_run t (Open p m s)).
+Proof. exact open_sim. Qed.
+Print Assumptions C18_open_matrix_agree.
+
+(* the matrix itself: seek agrees in every mode; read in rb / r+b; write in wb / ab / r+b
+   ('ab' additionally: no write after a successful seek, ab_script_ok) *)
+Theorem C18_cell_matrix :
+  (forall m off, hop_cell_ok m (HSeek off) = true) /\
+  (forall n, hop_cell_ok RB (HRead n) = true /\ hop_cell_ok RPB (HRead n) = true /\
+             hop_cell_ok WB (HRead n) = false /\ hop_cell_ok AB (HRead n) = false) /\
+  (forall d, hop_cell_ok RB (HWrite d) = false /\ hop_cell_ok RPB (HWrite d) = true /\
+             hop_cell_ok WB (HWrite d) = true /\ hop_cell_ok AB (HWrite d) = true).
+Proof. exact cell_matrix. Qed.
+
+(* mkdir agrees for every path and every combination of parents / exist_ok *)
+Theorem C18_mkdir_agree : forall t p par eok,
+  step_agree (m_run t (Mkdir p par eok)) (p_run t (Mkdir p par eok)).
+Proof. exact mkdir_agree_all. Qed.
+Print Assumptions C18_mkdir_agree.
+
+(* the scripts the transfer workers issue lie inside the matrix *)
+Theorem C18_worker_scripts_in_matrix : forall m restart blocks,
+  (m = WB \/ m = AB) ->
+  script_ok (if 0 <? restart then RPB else m)
+            ((if 0 <? restart then [HSeek restart] else []) ++ map HWrite blocks) = true
+  /\ script_ok RB ((if 0 <? restart then [HSeek restart] else []) ++ [HRead (-1)]) = true.
+Proof. intros m restart blocks H. split; [exact (store_script_in_matrix m restart blocks H)|exact (retr_script_in_matrix restart)]. Qed.
+
+Example C18_api_oks_nonvacuous :
+  api_oks wt0
+    [Exists [nd]; IsDir [ng]; IsFile [ng]; Mkdir [nm; nx] true false; Mkdir [nd] false true; Mkdir [ng; nx] true true;
+     Open [nm; nx; nf] WB [HWrite [1; 2]; HSeek 7; HWrite [3]; HSeek (-1)];
+     Open [nm; nx; nf] AB [HWrite [4]; HWrite []; HSeek 0];
+     Open [nm; nx; nf] RPB [HSeek 1; HRead 2; HWrite [5]; HSeek 0; HRead (-1)];
+     Open [nm; nx; nf] RB [HSeek 3; HRead 1; HRead (-1)]; Open [nd] RB []; Open [nh; nf] WB []; Open [nf] BadMode [];
+     List [nm; nx]; Stat [nm; nx; nf]; Rename [nm; nx; nf] [nd; ne; nh]; Rename [nh] [nx]; Unlink [nd; ne; nh];
+     Rmdir [nm; nx]; Rmdir [nd]; Unlink [nd]] = true.
+Proof. exact api_oks_nonvacuous. Qed.
+
+(* every excluded cell is a divergence (witnesses on the tree /d/{f,e/}, /g; replayed on the real
+   backends by the harness stream "api-matrix") *)
+Theorem C18_rb_write_cell_refuted :
+  exists t p s, wf t /\ open_ok t p RB s = false /\
+    m_run t (Open p RB s) = (Ok (VOpen [HUnit]), upd p (fun _ => File [81; 121; 122]) t) /\
+    p_run t (Open p RB s) = (Ok (VOpen [HErr EUnsupported]), t).
+Proof. exact rb_write_cell_refuted. Qed.
+Print Assumptions C18_rb_write_cell_refuted.
+
+Theorem C18_wb_read_cell_refuted :
+  exists t p s, wf t /\ open_ok t p WB s = false /\
+    fst (m_run t (Open p WB s)) = Ok (VOpen [HUnit; HPos 0; HBytes [81]]) /\
+    fst (p_run t (Open p WB s)) = Ok (VOpen [HUnit; HPos 0; HErr EUnsupported]).
+Proof. exact wb_read_cell_refuted. Qed.
+Print Assumptions C18_wb_read_cell_refuted.
+
+Theorem C18_ab_seek_write_cell_refuted :
+  exists t p s, wf t /\ open_ok t p AB s = false /\
+    blank (fst (m_run t (Open p AB s))) = blank (fst (p_run t (Open p AB s))) /\
+    lookup p (snd (m_run t (Open p AB s))) = Some (File [81; 121; 122]) /\
+    lookup p (snd (p_run t (Open p AB s))) = Some (File [120; 121; 122; 81]).
+Proof. exact ab_seek_write_cell_refuted. Qed.
+Print Assumptions C18_ab_seek_write_cell_refuted.
+
+Theorem C18_rpb_missing_cell_refuted :
+  exists t p, wf t /\ open_ok t p RPB [] = false /\
+    m_run t (Open p RPB []) = (Ok (VOpen []), upd [] (on_dir (fun es => es ++ [(nm, File [])])) t) /\
+    p_run t (Open p RPB []) = (Err ENOENT, t).
+Proof. exact rpb_missing_cell_refuted. Qed.
+Print Assumptions C18_rpb_missing_cell_refuted.
+
+Theorem C18_rename_over_existing_refuted :
+  exists t a b, wf t /\ api_ok t (Rename a b) = false /\
+    fst (m_run t (Rename a b)) = Ok VUnit /\ lookup a (snd (m_run t (Rename a b))) = None /\
+    p_run t (Rename a b) = (Err EISDIR, t).
+Proof. exact rename_over_existing_refuted. Qed.
+Print Assumptions C18_rename_over_existing_refuted.
 
 (* ---------------- API level: PathIO vs AsyncPathIO ---------------- *)
 (* closed obligations over today's source (Gen.PathIOTable is regenerated on every run) *)
